@@ -37,6 +37,8 @@ pub struct Plan {
     pub retain_p: u32,
     /// length of the sender's buffer (what `alloc()` hands out)
     pub send_buf_len: usize,
+    /// 0 = ordinary run, 1 = u8-boundary run, 2 = u16-boundary (64 KiB buffers) run
+    pub bmode: u8,
     /// Some(c): the buffers are built with `IoBuffer::new(pipe, c, ALIGN)` instead of `::io(pipe, max_msg_len)`
     pub send_cap: Option<usize>,
     pub recv_cap: Option<usize>,
@@ -49,6 +51,16 @@ pub struct Plan {
 /// truncate / element writes ...), sometimes a whole-value `assign_in_place` that may fail
 /// (C18 territory: a failure that leaves the value invalid is only a probe, see `make_plan`).
 pub fn tweak_top<M: ZooMsg + ?Sized>(m: &mut M, g: &mut Gen) {
+    // builder histories are replayed later from their recorded decisions, outside the planner:
+    // they must not depend on the planner's per-run boundary mode
+    struct Restore(u8);
+    impl Drop for Restore {
+        fn drop(&mut self) {
+            crate::val::set_boundary_mode(self.0);
+        }
+    }
+    let _restore = Restore(crate::val::boundary_mode());
+    crate::val::set_boundary_mode(0);
     if g.chance(1, 6) {
         let scale = [1usize, 3, 12][g.weighted(&[2, 2, 1])];
         let other = M::gen(&mut Gen::new(g.d, g.st, scale));
@@ -109,6 +121,10 @@ pub enum NSpec {
 }
 
 pub fn make_plan<M: ZooMsg + ?Sized>(d: &mut Decider, stats: &mut Stats, nspec: NSpec, tweak_p: u32) -> Plan {
+    make_plan_opt::<M>(d, stats, nspec, tweak_p, true)
+}
+
+pub fn make_plan_opt<M: ZooMsg + ?Sized>(d: &mut Decider, stats: &mut Stats, nspec: NSpec, tweak_p: u32, allow_boundary: bool) -> Plan {
     // size of the default value = smallest max_msg_len that lets the fallback message through
     let mut big = AlignedBytes::new(1024, M::ALIGN.max(16));
     big.fill(0);
@@ -119,9 +135,23 @@ pub fn make_plan<M: ZooMsg + ?Sized>(d: &mut Decider, stats: &mut Stats, nspec: 
     let extra = extras[d.weighted(St::Cfg, &[4, 4, 6, 8, 8, 6, 2, 1])];
     // one run in 400: buffers beyond 64 KiB, so that 16-bit length / offset types reach their
     // maximum (few messages only; such a run costs milliseconds instead of microseconds)
-    let huge = d.chance(St::Cfg, 1, 400);
-    let extra = if huge { 70_000 } else { extra };
-    let nspec = if huge { NSpec::UpTo(2) } else { nspec };
+    // boundary runs: 1 in 16 at the u8 maximum (buffers of +600 bytes), 1 in 2048 at the u16 maximum
+    let bmode: u8 = match if allow_boundary { d.weighted(St::Cfg, &[1919, 128, 1]) } else { 0 } {
+        1 => 1,
+        2 => 2,
+        _ => 0,
+    };
+    let huge = bmode == 2;
+    let extra = if huge { 70_000 } else if bmode == 1 { 600 } else { extra };
+    let nspec = if bmode != 0 { NSpec::UpTo(2) } else { nspec };
+    struct BoundaryReset;
+    impl Drop for BoundaryReset {
+        fn drop(&mut self) {
+            crate::val::set_boundary_mode(0);
+        }
+    }
+    let _reset = BoundaryReset;
+    crate::val::set_boundary_mode(bmode);
     let max_send = base + extra;
     let n_msgs = match nspec {
         // mostly short sequences; one run in eight a long one (many windows worth of stream)
@@ -157,7 +187,7 @@ pub fn make_plan<M: ZooMsg + ?Sized>(d: &mut Decider, stats: &mut Stats, nspec: 
     let mut anomalies: Vec<(Val, usize)> = Vec::new();
     for _ in 0..n_msgs {
         scratch_store[..cap].fill(0xA5);
-        let scale = if huge && d.chance(St::Msgs, 2, 3) { 66_000 } else { [2usize, 8, 40, 260, 700][d.weighted(St::Msgs, &[6, 8, 6, 2, 1])] };
+        let scale = if huge { 66_000 } else if bmode == 1 { 300 } else { [2usize, 8, 40, 260, 700][d.weighted(St::Msgs, &[6, 8, 6, 2, 1])] };
         let val = M::gen(&mut Gen::new(d, St::Msgs, scale));
         let use_default = d.chance(St::Msgs, 1, 12);
         // fit: largest clamp that emplaces and whose size() <= max_send
@@ -272,7 +302,7 @@ pub fn make_plan<M: ZooMsg + ?Sized>(d: &mut Decider, stats: &mut Stats, nspec: 
     let max_recv = longest + rx[d.weighted(St::Cfg, &[4, 2, 2, 2, 1, 1])];
     let retain_p = [0u32, 1, 3][d.weighted(St::Cfg, &[3, 1, 1])];
     let recv_cap = if explicit { Some(longest.max(M::MIN_SIZE) + [0usize, 1, M::ALIGN, 7, longest][d.weighted(St::Cfg, &[4, 1, 2, 1, 1])]) } else { None };
-    Plan { type_name: M::name(), align: M::ALIGN, min_size: M::MIN_SIZE, msgs, max_send, max_recv, retain_p, send_buf_len: cap, send_cap, recv_cap, anomalies }
+    Plan { type_name: M::name(), align: M::ALIGN, min_size: M::MIN_SIZE, msgs, max_send, max_recv, retain_p, send_buf_len: cap, bmode, send_cap, recv_cap, anomalies }
 }
 
 /// What the harness does after a failed `send()` / `recv()` (seeded policy).
